@@ -15,7 +15,8 @@ def classify(rec):
 def replay_vectors(ctx, vectors):
     vin, vout = ctx.path("c16_in.ndjson"), ctx.path("c16_out.ndjson")
     vlib.write_ndjson(vin, vectors)
-    rc, out = ctx.go_test(PKG, FILES, "^TestZZVerifC16Replay$", env={"VERIF_IN": vin, "VERIF_OUT": vout})
+    rc, out = ctx.go_test(PKG, FILES, "^TestZZVerifC16Replay$", env={
+        "VERIF_IN": vin, "VERIF_OUT": vout, "VERIF_C16_PASSES": "2" if ctx.quick else "5"})
     rows = vlib.read_ndjson(vout)
     summ = [r for r in rows if r.get("kind") == "summary"]
     if rc != 0 or not summ:
@@ -71,14 +72,15 @@ def run(ctx):
                 "non-trivial = the spec admits an id or an error for it; trace lines are random inputs "
                 "from a larger universe validated by TraceClientID.tla",
         "trace_lines": len(trows), "trace_lines_rejected": len(bad),
-        "flaky": flaky, "skipped": skipped,
+        "flaky": flaky, "skipped": skipped, "live_server_passes": summ.get("passes"),
+        "reconfigurations": summ.get("reconfigurations"),
         "exhaustive": True, "samples": samples,
     }
     if skipped > summ["n"] // 10:
         raise vlib.Inconclusive("too many skipped vectors: %d" % skipped)
     return ctx.finish("model_checking", cov, assumptions=[
         "TLC; the conc()/abs() functions of zz_verif_c16_test.go; label classifier of the harness",
-        "HandleBefore is driven with fake TLS/QUIC connection states (handler level, no sockets)"])
+        "HandleBefore + processInitial are driven on one live, repeatedly reconfigured server with fake TLS/QUIC connection states (handler level, no sockets)"])
 
 
 def replay(ctx, path):
